@@ -6,7 +6,7 @@ open TPV TPV.Proto TPV.Expr TPV.Expr.Expr TPV.DiffOps
 /-
   C03 driver.  Request (one line):
     <op> <form> <num>  <#vars> (<name> <dim>)*  <out>  <#deriv> <var index>*  <#extra> <expr>*  <#rows> (<#vals> <rat>*)*
-  op   : grad lap div jac rot partial nd conv sym mdiv | gradshape gradshapeold | eval
+  op   : grad lap div jac rot partial nd conv sym mdiv | gradshape gradshapeold | eval | gradold lapold (pinned snapshot: ok / err:unused)
   form : row | batch          (batch: the sum-over-the-batch forms; only grad lap div jac partial)
   num  : rat | flt            (rat: exact, `none` where not rational; flt: value bits and error-bound bits)
   out  : <#out> <expr>*       (mdiv: <#matrix rows> (<#cols> <expr>*)*)
@@ -113,6 +113,8 @@ def step (line : String) : String :=
     | "row", "eval" => return flat s!"{out.length}" out
     | "row", "grad" => let g := grad out dvars; return flat s!"{g.length}" g
     | "row", "lap" => return flat "1" (laplacian out dvars)
+    | "row", "gradold" => return okOr (gradOld out dvars) (fun _ => "ok")      -- pinned snapshot: raises or not
+    | "row", "lapold" => return okOr (laplacianOld out dvars) (fun _ => "ok")
     | "row", "div" => return okOr (div out dvars) (flat "1")
     | "row", "jac" =>
       let J := jac out dvars
